@@ -2,31 +2,452 @@
 
 package core
 
-import (
-	"net"
-	"strings"
+// C20 / H20a, H20a2: the public-URL guard core.ParsePublicURL(s, strict).
+//
+// H20a  quantifies over *structured* URL texts  scheme "://" [userinfo "@"] host [":" port] [tail]  whose pieces are
+//       symbolic within an alphabet, so the harness knows - independently of net/url - which scheme and host the text
+//       denotes, and judges the verdict of ParsePublicURL against reference predicates over those pieces.
+// H20a2 quantifies over "https://" ++ prefix ++ k arbitrary ASCII bytes ++ suffix and judges the verdict against the
+//       same reference predicates applied to the URL that ParsePublicURL returned (the value every caller dials).
+//
+// Reference (written from the property text and the RFCs, not from core/url.go):
+//   - IP literal: RFC 3986 IPv4address (four dec-octets, no leading zeros, each <= 255) or an RFC 3986/6874
+//     IP-literal in brackets (IPv6 address, optionally with a zone identifier);
+//   - reserved: the last label (a single trailing root dot ignored, case-insensitive) is one of the reserved TLDs
+//     of RFC 2606 / RFC 6761/6762 / draft-chapin-rfc2606bis-00 that the guard documents, or the last two labels
+//     are example.com / example.net / example.org;
+//   - the host that is *dialed* is the host after the UTS-46 mapping net/http applies before it connects
+//     (net/http.canonicalAddr -> idnaASCIIFromURL -> idna.Lookup.ToASCII): fullwidth forms U+FF01..U+FF5E map to
+//     ASCII U+0021..U+007E, and U+3002 / U+FF0E / U+FF61 map to '.'. Only this fragment of UTS-46 is modelled.
+
+// independent copies of the documented lists
+var hReservedTLDs = []string{"corp", "example", "home", "host", "invalid", "lan", "local", "localdomain", "localhost", "test"}
+var hReservedSLDs = []string{"example.com", "example.net", "example.org"}
+
+func hLowerByte(c byte) byte {
+	if c >= 'A' && c <= 'Z' {
+		c += 'a' - 'A'
+	}
+	return c
+}
+
+// hEqFold: s equals the lower-case word w, ignoring ASCII case (no early exit: stays one symbolic condition).
+func hEqFold(s, w string) bool {
+	if len(s) != len(w) {
+		return false
+	}
+	eq := true
+	for i := 0; i < len(s); i++ {
+		eq = eq && hLowerByte(s[i]) == w[i]
+	}
+	return eq
+}
+
+func hInFold(s string, words []string) bool {
+	in := false
+	for _, w := range words {
+		in = in || hEqFold(s, w)
+	}
+	return in
+}
+
+// hRefDecOctet: RFC 3986 dec-octet.
+func hRefDecOctet(l string) bool {
+	if len(l) < 1 || len(l) > 3 {
+		return false
+	}
+	ok := true
+	v := 0
+	for i := 0; i < len(l); i++ {
+		ok = ok && l[i] >= '0' && l[i] <= '9'
+		v = v*10 + int(l[i]-'0')
+	}
+	if len(l) > 1 {
+		ok = ok && l[0] != '0'
+	}
+	return ok && v <= 255
+}
+
+// hRefIPv4: the labels (host text split on dots) form an RFC 3986 IPv4address.
+func hRefIPv4(labels []string) bool {
+	if len(labels) != 4 {
+		return false
+	}
+	ok := true
+	for _, l := range labels {
+		ok = ok && hRefDecOctet(l)
+	}
+	return ok
+}
+
+// hRefReserved: reserved last label / second-level name; one trailing root label is ignored.
+func hRefReserved(labels []string) bool {
+	n := len(labels)
+	if n > 1 && labels[n-1] == "" {
+		n--
+	}
+	if n == 0 || len(labels[n-1]) == 0 {
+		return false
+	}
+	if hInFold(labels[n-1], hReservedTLDs) {
+		return true
+	}
+	if n >= 2 {
+		return hInFold(labels[n-2]+"."+labels[n-1], hReservedSLDs)
+	}
+	return false
+}
+
+// hCased returns w (lower-case letters) with symbolic letter case: any mix if len(w) <= full, else one of
+// lower / Capitalised / UPPER (per-byte case costs a fork per byte inside strings.ToLower).
+func hCased(w string, full int) string {
+	b := make([]byte, len(w))
+	if len(w) <= full {
+		for i := 0; i < len(w); i++ {
+			c := vU8()
+			vAssume(c == w[i] || (w[i] >= 'a' && w[i] <= 'z' && c == w[i]-32))
+			b[i] = c
+		}
+		return string(b)
+	}
+	k0 := vRange(0, 1)
+	kr := vRange(0, 1)
+	vAssume(kr <= k0)
+	for i := 0; i < len(w); i++ {
+		k := kr
+		if i == 0 {
+			k = k0
+		}
+		if w[i] >= 'a' && w[i] <= 'z' {
+			b[i] = w[i] - byte(32*k)
+		} else {
+			b[i] = w[i]
+		}
+	}
+	return string(b)
+}
+
+const (
+	hAlnumLower = iota // a-z 0-9 -
+	hAlnumBoth         // a-z A-Z 0-9 - _
+	hSchemeChars       // a-z A-Z 0-9 + - .
+	hDigits
+	hHex
 )
 
+func hSymText(n int, class int) string {
+	b := make([]byte, n)
+	for i := 0; i < n; i++ {
+		c := vU8()
+		lower := c >= 'a' && c <= 'z'
+		upper := c >= 'A' && c <= 'Z'
+		digit := c >= '0' && c <= '9'
+		switch class {
+		case hAlnumLower:
+			vAssume(lower || digit || c == '-')
+		case hAlnumBoth:
+			vAssume(lower || upper || digit || c == '-' || c == '_')
+		case hSchemeChars:
+			vAssume(lower || upper || digit || c == '+' || c == '-' || c == '.')
+		case hDigits:
+			vAssume(digit)
+		case hHex:
+			vAssume(digit || c >= 'a' && c <= 'f' || c >= 'A' && c <= 'F')
+		}
+		b[i] = c
+	}
+	return string(b)
+}
+
+// hWide: UTF-8 of the fullwidth form U+FF00+(c-0x20) of the ASCII character c (0x21..0x7E).
 func hWide(c byte) string {
-	// fullwidth form U+FF00+(c-0x20): EF BC 80+(c-0x20) for c<0x60 ; EF BD 80+(c-0x60) otherwise
 	if c < 0x60 {
 		return string([]byte{0xEF, 0xBC, 0x80 + (c - 0x20)})
 	}
 	return string([]byte{0xEF, 0xBD, 0x80 + (c - 0x60)})
 }
 
-func HpWide() {
-	n := vParam("n", 2)
+type hHost struct {
+	text     string   // as written in the URL (with brackets for IP-literals)
+	hostname string   // what url.URL.Hostname() must return (brackets stripped, zone unescaped)
+	labels   []string // ASCII image of the dialed host split on dots (nil for bracketed literals)
+	ipv6     bool     // bracketed IPv6 literal (all generated bodies are valid IPv6 addresses)
+	zone     bool
+	mapped   bool // contains characters that net/http maps to ASCII before dialing
+	plain    bool // non-empty labels only, no trailing dot: the converse (must be accepted) applies
+}
+
+func hJoin(labels []string) string {
 	s := ""
-	for i := 0; i < n; i++ {
-		c := vU8()
-		vAssume(c >= 'a' && c <= 'z' || c >= '0' && c <= '9' || c >= 'A' && c <= 'Z')
-		s += hWide(c)
+	for i, l := range labels {
+		if i > 0 {
+			s += "."
+		}
+		s += l
 	}
-	if strings.ToLower(s) == "ab" {
-		vCover("res")
+	return s
+}
+
+func hGenRegName() hHost {
+	labelClass := hAlnumLower
+	if vParam("upper", 0) > 0 {
+		labelClass = hAlnumBoth
 	}
-	if net.ParseIP(s) != nil {
-		vCover("ip")
+	var labels []string
+	plain := true
+	nl := vLen(0, vParam("labels", 1))
+	for i := 0; i < nl; i++ {
+		l := hSymText(vLen(0, vParam("lab", 2)), labelClass)
+		if len(l) == 0 {
+			plain = false
+		}
+		labels = append(labels, l)
+	}
+	switch vChoice(3) {
+	case 0: // arbitrary last label
+		l := hSymText(vLen(0, vParam("tld", 3)), hAlnumBoth)
+		if len(l) == 0 {
+			plain = false
+		}
+		labels = append(labels, l)
+	case 1:
+		vCover("gen:reserved-tld")
+		labels = append(labels, hCased(hReservedTLDs[vChoice(len(hReservedTLDs))], vParam("fullcase", 4)))
+	case 2:
+		vCover("gen:reserved-sld")
+		labels = append(labels, hCased("example", 0), hCased([]string{"com", "net", "org"}[vChoice(3)], 3))
+	}
+	if vBool() {
+		vCover("gen:trailing-dot")
+		labels = append(labels, "")
+		plain = false
+	}
+	t := hJoin(labels)
+	return hHost{text: t, hostname: t, labels: labels, plain: plain}
+}
+
+func hGenIPv4() hHost {
+	var labels []string
+	shape := [][4]int{{1, 1, 1, 1}, {3, 1, 1, 1}, {2, 2, 2, 2}, {1, 1, 1, 3}, {3, 3, 3, 3}}[vChoice(vParam("v4shapes", 2))]
+	for i := 0; i < 4; i++ {
+		labels = append(labels, hSymText(shape[i], hDigits))
+	}
+	t := hJoin(labels)
+	return hHost{text: t, hostname: t, labels: labels, plain: true}
+}
+
+func hGenIPv6() hHost {
+	h := func() string { return hSymText(1, hHex) }
+	var body string
+	switch vChoice(vParam("v6shapes", 5)) {
+	case 0:
+		body = "::1"
+	case 1:
+		body = "::"
+	case 2:
+		body = h() + "::" + h()
+	case 3:
+		body = "fe80::" + h()
+	case 4:
+		body = "::ffff:" + hSymText(1, hDigits) + "." + hSymText(1, hDigits) + "." + hSymText(1, hDigits) + "." + hSymText(1, hDigits)
+	case 5:
+		body = h() + ":" + h() + ":" + h() + ":" + h() + ":" + h() + ":" + h() + ":" + h() + ":" + h()
+	case 6:
+		body = h() + h() + h() + h() + "::"
+	}
+	host := hHost{ipv6: true}
+	zl := vLen(0, vParam("zone", 1))
+	if zl > 0 {
+		z := hSymText(zl, hAlnumLower)
+		host.zone = true
+		host.text = "[" + body + "%25" + z + "]"
+		host.hostname = body + "%" + z
+	} else {
+		host.text = "[" + body + "]"
+		host.hostname = body
+	}
+	return host
+}
+
+// hGenMapped: hosts written with characters that net/http maps to ASCII (UTS-46) before it dials.
+func hGenMapped() hHost {
+	var labels []string
+	switch vChoice(5) {
+	case 0:
+		labels = []string{hSymText(1, hDigits), hSymText(1, hDigits), hSymText(1, hDigits), hSymText(1, hDigits)}
+	case 1:
+		labels = []string{"127", "0", "0", "1"}
+	case 2:
+		labels = []string{"localhost"}
+	case 3:
+		labels = []string{"a", "example", "com"}
+	case 4:
+		labels = []string{hSymText(1, hAlnumLower), "nl"} // harmless
+	}
+	text := ""
+	switch vChoice(4) {
+	case 0: // every character in its fullwidth form, dots included
+		for i, l := range labels {
+			if i > 0 {
+				text += hWide('.')
+			}
+			for j := 0; j < len(l); j++ {
+				text += hWide(l[j])
+			}
+		}
+	case 1: // ASCII labels, ideographic full stop U+3002 as separator
+		for i, l := range labels {
+			if i > 0 {
+				text += "\xe3\x80\x82"
+			}
+			text += l
+		}
+		if len(labels) == 1 { // no separator to replace: widen the first character instead
+			text = hWide(labels[0][0]) + labels[0][1:]
+		}
+	case 2: // halfwidth ideographic full stop U+FF61 as separator
+		for i, l := range labels {
+			if i > 0 {
+				text += "\xef\xbd\xa1"
+			}
+			text += l
+		}
+		if len(labels) == 1 {
+			text = labels[0][:len(labels[0])-1] + hWide(labels[0][len(labels[0])-1])
+		}
+	case 3: // only the last label in fullwidth form
+		for i, l := range labels {
+			if i > 0 {
+				text += "."
+			}
+			if i == len(labels)-1 {
+				for j := 0; j < len(l); j++ {
+					text += hWide(l[j])
+				}
+			} else {
+				text += l
+			}
+		}
+	}
+	return hHost{text: text, hostname: text, labels: labels, mapped: true}
+}
+
+// H20a: see file comment.
+func H20a() {
+	// scheme
+	var scheme string
+	switch vChoice(3) {
+	case 0:
+		scheme = hCased("https", 0)
+	case 1:
+		scheme = hCased("http", 0)
+	case 2:
+		scheme = hSymText(vLen(0, vParam("sch", 2)), hSchemeChars)
+	}
+	isHTTPS := hEqFold(scheme, "https")
+	isHTTP := hEqFold(scheme, "http")
+
+	// host
+	var host hHost
+	switch vChoice(5) {
+	case 0:
+		vCover("kind:reg-name")
+		host = hGenRegName()
+	case 1:
+		vCover("kind:ipv4")
+		host = hGenIPv4()
+	case 2:
+		vCover("kind:ipv6")
+		host = hGenIPv6()
+	case 3:
+		vCover("kind:idna-mapped")
+		host = hGenMapped()
+	case 4:
+		vCover("kind:no-host")
+		host = hHost{}
+	}
+
+	// decoration around the host (does not change which host the text denotes)
+	pre, post := "", ""
+	switch vChoice(vParam("deco", 4)) {
+	case 0:
+	case 1:
+		post = ":" + hSymText(vLen(0, 2), hDigits)
+	case 2:
+		post = "/" + hSymText(1, hAlnumBoth)
+	case 3:
+		pre = hSymText(1, hAlnumBoth) + "@"
+	case 4:
+		pre = hSymText(1, hAlnumBoth) + ":" + hSymText(1, hAlnumBoth) + "@"
+		post = ":" + hSymText(1, hDigits) + "/?" + hSymText(1, hAlnumBoth) + "#" + hSymText(1, hAlnumBoth)
+	}
+	s := scheme + "://" + pre + host.text + post
+
+	hasHost := host.hostname != ""
+	isIP := host.ipv6 || hRefIPv4(host.labels)
+	reserved := !host.ipv6 && hRefReserved(host.labels)
+
+	strict := vBool()
+	u, err := ParsePublicURL(s, strict)
+	accepted := err == nil
+	if accepted {
+		vAssert(u != nil, "H20a.accept_returns_url: accepted but no URL returned")
+		vAssert(hEqFold(u.Scheme, "https") == isHTTPS && hEqFold(u.Scheme, "http") == isHTTP, "H20a.result_scheme: returned URL has another scheme than the input text")
+		vAssert(u.Hostname() == host.hostname, "H20a.result_host: returned URL names another host than the input text")
+	}
+	if strict {
+		if accepted {
+			vCover("strict:accepted")
+			vAssert(isHTTPS, "H20a.strict_https_only: strict mode accepted a public URL whose scheme is not https")
+			vAssert(hasHost, "H20a.strict_has_host: strict mode accepted a public URL without host")
+			if isIP {
+				switch {
+				case host.zone:
+					vClass("IPv6 literal with zone identifier")
+				case host.ipv6:
+					vClass("IPv6 literal")
+				case host.mapped:
+					vClass("IPv4 address written with characters net/http maps to ASCII (UTS-46)")
+				default:
+					vClass("IPv4 address")
+				}
+				vAssert(false, "H20a.strict_host_not_ip: strict mode accepted a public URL whose host is an IP address")
+			}
+			if reserved {
+				if host.mapped {
+					vClass("reserved name written with characters net/http maps to ASCII (UTS-46)")
+				} else {
+					vClass("reserved name")
+				}
+				vAssert(false, "H20a.strict_host_not_reserved: strict mode accepted a public URL whose host is a reserved name")
+			}
+		} else {
+			vCover("strict:rejected")
+			if isHTTPS && hasHost && !isIP && !reserved && host.plain && !host.mapped {
+				vAssert(false, "H20a.strict_accepts_public_https: strict mode rejected an https URL with a public, non-reserved host name")
+			}
+		}
+	} else {
+		if accepted {
+			vCover("lenient:accepted")
+			vAssert(isHTTP || isHTTPS, "H20a.lenient_only_http_https: non-strict mode accepted a scheme other than http/https")
+			vAssert(hasHost, "H20a.lenient_has_host: non-strict mode accepted a URL without host")
+			if isIP {
+				vCover("lenient:accepted-ip")
+			}
+			if reserved {
+				vCover("lenient:accepted-reserved")
+			}
+		} else {
+			vCover("lenient:rejected")
+			vAssert(!((isHTTP || isHTTPS) && hasHost), "H20a.lenient_accepts_http_https: non-strict mode rejected an http(s) URL with a host")
+		}
+	}
+}
+
+func H20a_twin() {
+	u, err := ParsePublicURL(hCased("https", 0)+"://"+hSymText(2, hAlnumLower)+"."+hSymText(2, hAlnumBoth), true)
+	if err == nil && u.Hostname() != "" {
+		vAssert(false, "H20a_twin.reach: reachable")
 	}
 }
